@@ -184,6 +184,19 @@ class UpdaterModel:
             return '.'.join(reversed(names))
         return None
 
+    def placeholder_record(self, i, f):
+        """the updater holds its sample in an Option, this path is the one where it is None, and the record carries constant
+        place-holders published as Unknown (there is no sample to carry)"""
+        asof_f = self.field_of.get(0)
+        if '.<Some>' not in str(asof_f):
+            return False
+        opt = str(asof_f).split('.<Some>')[0]
+        none_here = any(t_[0] == 't' and t_[1] == 'discr' and self.updater_field(t_[2][0]) == opt and
+                        ((op_ == '==' and val_ == 0) or (op_ == '!=' and 1 in val_)) for t_, op_, val_, _ in i['path'].conds)
+        consts = all(not [y for y in psi.walk(x) if y[0] in ('sym',) or (y[0] == 't' and y[1] in ('call', 'deref'))] for x in (f[0], f[2]))
+        st_unknown = f[-1][0] == 'agg' and f[-1][2] == 'Unknown'
+        return none_here and consts and st_unknown
+
     def classify(self, p):
         info = {'path': p, 'msg': None, 'msg_name': None, 'recv_err': False, 'applied': [], 'records': [],
                 'published': [], 'stores': {}, 'writes': 0, 'payload': None, 'steps': [], 'step_callees': set(), 'step_recv': []}
